@@ -104,32 +104,43 @@ class _Impl:
         sys.modules['threading'] = th
         try:
             self.P = importlib.import_module('valjean.eponine.tripoli4.parse')
-            self.G = importlib.import_module('valjean.eponine.tripoli4.grammar')
         finally:
             sys.modules['threading'] = saved
-        G = self.G
-        self.kind = {id(G._reactiononnucl): 'n', id(G._temperature): 't', id(G._composition): 'c',   # pylint: disable=protected-access
-                     id(G._concentration): 'k', id(G._reaction): 'r'}                                   # pylint: disable=protected-access
-        target = G._otherdetails                                                                       # pylint: disable=protected-access
+        # The Forward element that is re-bound during a parse is found structurally, not by its (private) name: it is the
+        # one a parse action binds to an expression over the response details, which are recognised by their results
+        # names (the metadata keys of the parsed responses, part of the parser's output format).
+        known = {'reaction_on_nucleus': 'n', 'temperature': 't', 'composition': 'c', 'concentration': 'k', 'reaction': 'r'}
+        self.targets = set()
         _ls, _pi = pyparsing.Forward.__lshift__, pyparsing.Forward.parseImpl
 
-        def leaves(e):
-            if id(e) in impl.kind:
-                return [impl.kind[id(e)]]
-            if isinstance(e, pyparsing.MatchFirst):
-                return [x for c in e.exprs for x in leaves(c)]
-            return ['?']
+        def names_under(e, depth=0, seen=None):
+            seen = set() if seen is None else seen
+            if depth > 8 or id(e) in seen or not isinstance(e, pyparsing.ParserElement):
+                return set()
+            seen.add(id(e))
+            out = set()
+            rn = getattr(e, 'resultsName', None)
+            if rn in known:
+                return {known[rn]}
+            for c in list(getattr(e, 'exprs', None) or []) + [getattr(e, 'expr', None)]:
+                if c is not None:
+                    out |= names_under(c, depth + 1, seen)
+            return out
 
         def lshift(fwd, other):
-            if fwd is target:
-                excl = ''.join(sorted(set('ntckr') - set(leaves(getattr(other, 'expr', other)))))
-                detsched.yield_(('set', excl))
+            if impl.parsing:
+                kinds = names_under(other)
+                if kinds:
+                    impl.targets.add(id(fwd))
+                    excl = ''.join(sorted(set(known.values()) - kinds))
+                    detsched.yield_(('set', excl))
             return _ls(fwd, other)
 
         def parse_impl(fwd, instring, loc, do_actions=True):
-            if fwd is target:
+            if id(fwd) in impl.targets:
                 detsched.yield_(('use',))
             return _pi(fwd, instring, loc, do_actions)
+        self.parsing = False
         pyparsing.Forward.__lshift__ = lshift
         pyparsing.Forward.parseImpl = parse_impl
         self.scratch = scratch
@@ -148,6 +159,7 @@ class _Impl:
 
     def parse(self, path):
         import numpy as np
+        self.parsing = True          # re-bindings from here on are made by parse actions, not by the import of the grammar
         try:
             browser = self.P.Parser(path).parse_from_index(-1).to_browser()
         except Exception as ex:  # pylint: disable=broad-except
